@@ -20,6 +20,7 @@ import r_repstate
 import r_shape
 import r_family
 import r_rngprov
+import r_dispatch
 import witness
 
 
@@ -218,6 +219,51 @@ def repstate(facts, rep, entries, floor):
 
 def _ops(facts, p, ty):
     return [name for _, name, t in r_guard.operand_params(facts, p) if r_guard.strip_ty(t) == ty]
+
+
+def c01(facts, tier):
+    rep = Report("C01", tier, facts,
+                 "R-DISPATCH: under their literal flags the 28 encryption entry points of Encryptor reach the worker of "
+                 "their own kind (secret-key vs public-key) and at least one; scheme availability: on each of the BFV, "
+                 "CKKS and BGV projections encrypt*/decrypt* have a normally-returning path (the dispatch has an arm for "
+                 "the scheme) and refuse under an unknown scheme; R-REPSTATE on the encryption/decryption call tree per "
+                 "scheme and flag assumption (the level-dependent mod-switch of public-key encryptions uses the routine of "
+                 "the ciphertext's representation, nothing mixes representations, results leave with data matching their "
+                 "flag); R-RNGPROV(seedrt): the stored seed is written and expanded at the same address/length.",
+                 "that decryption returns the plaintext, any noise bound, the CKKS error bound.")
+    n = r_dispatch.run(facts, rep)
+    rep.floor("R-DISPATCH", "encryption entry points", n, 24)
+    rep.rule("R-SCHEME(avail)", "encrypt/decrypt have an arm for each scheme: a normally-returning path exists on the BFV, "
+             "CKKS and BGV projections")
+    ents = [p for p in facts.methods_of("encryptor::Encryptor", pub_only=True) if facts.items[p]["name"].startswith("encrypt")]
+    ents += [p for p in facts.methods_of("encryptor::Decryptor", pub_only=True) if facts.items[p]["name"].startswith("decrypt")]
+    k = 0
+    for sc in ("BFV", "CKKS", "BGV"):
+        pf = project.ProjFacts(facts, sc)
+        for p in ents:
+            k += 1
+            _, normal = r_dispatch.reach2(pf, p, {})
+            key = "%s/%s" % (facts.items[p]["name"], sc)
+            if normal:
+                rep.ok("R-SCHEME(avail)", key, "has a normally-returning path under %s" % sc, facts.loc(p), nontrivial=False)
+            else:
+                rep.violation("R-SCHEME(avail)", key, "%s never returns normally under %s: the scheme dispatch has no arm for "
+                              "it (or every path refuses)" % (p, sc), facts.loc(p))
+    rep.floor("R-SCHEME(avail)", "(entry, scheme) rows", k, 75)
+    tree = ents + [p for p in facts.items if p.startswith("util::rlwe::encrypt_zero::")]
+    repstate(facts, rep, tree, 130)
+    r_rngprov_seed(facts, rep)
+    return rep
+
+
+def r_rngprov_seed(facts, rep):
+    """cross-listed from C16: seed round trip"""
+    sub = Report(rep.pid, rep.tier, facts, "", "")
+    r_rngprov.run_c16(facts, sub)
+    for i in sub.instances:
+        if "(seedrt)" in i["rule"]:
+            rep.instances.append(i)
+    rep.rules.update({k: v for k, v in sub.rules.items() if "(seedrt)" in k})
 
 
 def c02(facts, tier):
@@ -537,6 +583,7 @@ def c13(facts, tier):
 
 
 CHECKS = {
+    "C01": c01,
     "C02": c02,
     "C16": c16,
     "C13": c13,
